@@ -156,6 +156,39 @@ func streamCase(ctx *Ctx, max int, wire []byte, sched []readEv, exp *streamExpec
 	return line, impl
 }
 
+// anyWireOracle states theorem recvC_any_wire on the real code, for a wire about which nothing is assumed.
+func anyWireOracle(ctx *Ctx, max int, wire []byte, sched []readEv) {
+	var recvs []sr.Recv
+	ctx.current = sr.Line(max, 0, wire, sched)
+	guard("Recv", func() int {
+		recvs, _, _ = sr.Run(max, wire, sched, sr.Options{})
+		return 0
+	})
+	line := sr.LineC(max, sr.C0s(recvs), wire, sched)
+	start := 0
+	for i, rc := range recvs {
+		if rc.Kind == "panic" {
+			break // reported by streamCase
+		}
+		left := wire[min(start, len(wire)):]
+		if len(left) >= 8 {
+			frame := int(paddedNeed(uint32(left[4])<<24 | uint32(left[5])<<16 | uint32(left[6])<<8 | uint32(left[7])))
+			if rc.Consumed > frame {
+				c07(ctx, "exact-consumption", "stream:any-wire-consumed-beyond-frame", fmt.Sprintf("Recv #%d (%s) consumed %d bytes, its header announces a frame of %d", i, rc.Kind, rc.Consumed, frame), line)
+			}
+			if rc.Kind == "m" && rc.Consumed != frame {
+				c07(ctx, "exact-consumption", "stream:any-wire-message-not-one-frame", fmt.Sprintf("Recv #%d returned a message having consumed %d bytes, its header announces a frame of %d", i, rc.Consumed, frame), line)
+			}
+			if rc.Kind == "m" && max > 0 && rc.Consumed > max {
+				c07(ctx, "limit", "stream:any-wire-message-above-limit", fmt.Sprintf("Recv #%d returned a message of %d bytes with max=%d", i, rc.Consumed, max), line)
+			}
+		} else if rc.Kind == "m" {
+			c07(ctx, "no-message-from-partial", "stream:message-from-incomplete-data", fmt.Sprintf("Recv #%d returned a message from %d remaining bytes", i, len(left)), line)
+		}
+		start += rc.Consumed
+	}
+}
+
 func maxInt(a, b int) int {
 	if a > b {
 		return a
@@ -166,7 +199,7 @@ func maxInt(a, b int) int {
 func init() {
 	register(&Engine{
 		Name: "stream",
-		Rule: "sequences of 1..4 generic TTLV messages (written by Stream.Send or by the independent encoder) on a scripted transport x read schedules (1-byte reads, random chunk sizes, boundary-spanning chunks, data returned together with an error on the frame-completing read of any message, zero-length reads and errors at random points [impl-only: safety oracles], error-free exhausted schedule) x truncation at random offsets x max in {<0, 0, server limit (probed on a real kmipserver), largest message, small} x announced lengths around the max and up to 2^32-1 (allocation measured) x sequences of 2..17 messages on ONE stream whose sizes grow, shrink, alternate, repeat or jump around the points where the receive buffer has to grow (the initial 512 bytes, the allocator's size classes up to 64 KiB and +-8/16 bytes around them, page-granular sizes up to the server limit): all ordered pairs of such sizes, shaped sequences of 3..17, medium and small messages after a very large one, each under one of seven clean chunkings (whole reads, 1-byte, small / large random chunks, a fixed record size, header split + body, error on the completing read) and one of four limits x the same lines on a GOARCH=386 build; distinct = distinct line; nontrivial = wire longer than one header",
+		Rule: "sequences of 1..4 generic TTLV messages (written by Stream.Send or by the independent encoder) on a scripted transport x read schedules (1-byte reads, random chunk sizes, boundary-spanning chunks, data returned together with an error on the frame-completing read of any message, zero-length reads and errors at random points [impl-only: safety oracles], error-free exhausted schedule) x truncation at random offsets x max in {<0, 0, server limit (probed on a real kmipserver), largest message, small} x announced lengths around the max and up to 2^32-1 (allocation measured) x sequences of 2..17 messages on ONE stream whose sizes grow, shrink, alternate, repeat or jump around the points where the receive buffer has to grow (the initial 512 bytes, the allocator's size classes up to 64 KiB and +-8/16 bytes around them, page-granular sizes up to the server limit): all ordered pairs of such sizes, shaped sequences of 3..17, medium and small messages after a very large one, each under one of seven clean chunkings (whole reads, 1-byte, small / large random chunks, a fixed record size, header split + body, error on the completing read) and one of four limits x wires about which nothing is assumed (random bytes, plausible headers with too few / too many bytes, valid messages followed by junk, one damaged header or body byte; with a limit whenever a frame start announces more than 1 MiB) compared call by call with the model and judged by theorem recvC_any_wire read on the real code (a call never consumes beyond the frame its own header announces, a returned message has consumed exactly that frame and is not above the limit) x the same lines on a GOARCH=386 build; distinct = distinct line; nontrivial = wire longer than one header",
 		Run:  runStream,
 	})
 }
@@ -385,6 +418,63 @@ func runStream(ctx *Ctx) {
 			}
 		}
 		run(max, wire, sched, exp)
+	}
+
+	// ANY wire (theorem recvC_any_wire): garbage, half frames, lying headers, valid messages with a damaged
+	// header, valid messages followed by junk — no expectation about what is delivered, only (a) the model's
+	// answer call by call (outcome, transport position, requested capacity) and (b) the theorem read on the
+	// real code: a call never consumes more than the frame its own header announces, a call that returns a
+	// message has consumed exactly that frame, and no message above the limit is returned.
+	nAny := ctx.N(600, 12000)
+	for i := 0; i < nAny; i++ {
+		var wire []byte
+		switch r.Intn(5) {
+		case 0: // random bytes
+			wire = r.Bytes(r.Intn(72))
+		case 1: // a plausible header with a small random length, followed by too few / enough / too many bytes
+			l := r.Intn(40)
+			wire = []byte{0x42, 0x00, byte(r.Intn(256)), byte(1 + r.Intn(10)), 0, 0, 0, byte(l)}
+			wire = append(wire, r.Bytes(r.Intn(64))...)
+		case 2: // valid messages followed by junk
+			for j := r.Intn(3); j >= 0; j-- {
+				wire = append(wire, tree.Gen(r, opts, 0).Encode()...)
+			}
+			wire = append(wire, r.Bytes(1+r.Intn(24))...)
+		case 3: // a valid message with one damaged header byte (tag, type or length), then another message
+			wire = tree.Gen(r, opts, 0).Encode()
+			wire[r.Intn(8)] ^= byte(1 << r.Intn(8))
+			wire = append(wire, tree.Gen(r, opts, 0).Encode()...)
+		default: // a valid message whose body is damaged (decoding fails after correct framing), then another
+			wire = tree.Gen(r, opts, 0).Encode()
+			if len(wire) > 8 {
+				wire[8+r.Intn(len(wire)-8)] ^= byte(1 << r.Intn(8))
+			}
+			wire = append(wire, tree.Gen(r, opts, 0).Encode()...)
+		}
+		max := []int{-1, 0, 8, 24, 64, 200, srvMax}[r.Intn(7)]
+		var sched []readEv
+		switch r.Intn(3) {
+		case 1:
+			for k := 0; k < len(wire); k++ {
+				sched = append(sched, readEv{K: 1})
+			}
+		case 2:
+			for k := 0; k < len(wire); k++ {
+				sched = append(sched, readEv{K: 1 + r.Intn(24)})
+			}
+		}
+		// without a limit Recv allocates whatever a header announces (by design; the property speaks about a
+		// CONFIGURED maximum): a wire on which some frame start announces more than 1 MiB gets the server's limit
+		for pos := 0; pos+8 <= len(wire) && max <= 0; {
+			need := paddedNeed(uint32(wire[pos+4])<<24 | uint32(wire[pos+5])<<16 | uint32(wire[pos+6])<<8 | uint32(wire[pos+7]))
+			if need > 1<<20 {
+				max = srvMax
+			}
+			pos += int(need)
+		}
+		anyWireOracle(ctx, max, wire, sched)
+		run(max, wire, sched, nil)
+		ctx.Res.Count("stream.class=any-wire")
 	}
 
 	// announcements far above the limit: 2^31 and 2^32 boundaries, after 0..2 valid messages, every
